@@ -10,7 +10,7 @@ Local Open Scope N_scope.
 
 Definition rt_cfg : config :=
   {| cf_show_esc := rt_show_escapes; cf_look_esc := rt_look_escapes; cf_look_cont := rt_look_continue;
-     cf_float_look_long := rt_float_look_long; cf_int_signext := rt_scan_int_signext;
+     cf_float_look_long := rt_float_look_long; cf_int_signext := rt_scan_int_signext; cf_int_signext_narrow := rt_scan_int_signext_narrow;
      cf_lit_measure := rt_scan_lit_measures; cf_pct_measure := rt_scan_pct_measures |}.
 
 (* the shape of the surrounding C code the model encodes is still the one found by genx_rt.py *)
@@ -92,10 +92,10 @@ Proof. vm_compute. reflexivity. Qed.
    eaten the padding of the next number) and by 2 for "%%" (one character) *)
 Definition cfg_old_literals : config :=
   {| cf_show_esc := rt_show_escapes; cf_look_esc := rt_look_escapes; cf_look_cont := true;
-     cf_float_look_long := true; cf_int_signext := true; cf_lit_measure := false; cf_pct_measure := false |}.
+     cf_float_look_long := true; cf_int_signext := true; cf_int_signext_narrow := true; cf_lit_measure := false; cf_pct_measure := false |}.
 
 Definition spec_5li : nspec := {| n_conv := 105; n_long := true; n_plus := false; n_space := false;
-                                  n_zero := false; n_alt := false; n_width := 5; n_prec := None |}.
+                                  n_zero := false; n_alt := false; n_width := 5; n_prec := None; n_short := 0 |}.
 
 Lemma rt_literal_length_refuted :
   let its := [PShow (VStr [97; 98]); PLit [32]; PNum spec_5li (VInt 42)] in
@@ -151,10 +151,10 @@ Qed.
 
 (* F6 as found: a d directive without `l` stores 32 bits into a zeroed long; -5 comes back as 2^32 - 5 *)
 Definition spec_d : nspec := {| n_conv := 100; n_long := false; n_plus := false; n_space := false;
-                                n_zero := false; n_alt := false; n_width := 0; n_prec := None |}.
+                                n_zero := false; n_alt := false; n_width := 0; n_prec := None; n_short := 0 |}.
 Definition cfg_no_signext : config :=
   {| cf_show_esc := rt_show_escapes; cf_look_esc := rt_look_escapes; cf_look_cont := true;
-     cf_float_look_long := true; cf_int_signext := false; cf_lit_measure := true; cf_pct_measure := true |}.
+     cf_float_look_long := true; cf_int_signext := false; cf_int_signext_narrow := false; cf_lit_measure := true; cf_pct_measure := true |}.
 
 Lemma rt_scan_d_zero_extends_refuted :
   exists z, (- two31 <= z < two31)%Z /\
@@ -166,15 +166,15 @@ Lemma rt_scan_d_repaired_example :
 Proof. vm_compute. reflexivity. Qed.
 
 Definition spec_p08d : nspec := {| n_conv := 100; n_long := false; n_plus := true; n_space := false;
-                                   n_zero := true; n_alt := false; n_width := 8; n_prec := None |}.
+                                   n_zero := true; n_alt := false; n_width := 8; n_prec := None; n_short := 0 |}.
 
 Definition spec_lX : nspec := {| n_conv := 88; n_long := true; n_plus := false; n_space := false;
-                                 n_zero := false; n_alt := false; n_width := 0; n_prec := None |}.
+                                 n_zero := false; n_alt := false; n_width := 0; n_prec := None; n_short := 0 |}.
 Definition spec_lx : nspec := {| n_conv := 120; n_long := true; n_plus := false; n_space := false;
-                                 n_zero := false; n_alt := false; n_width := 0; n_prec := None |}.
+                                 n_zero := false; n_alt := false; n_width := 0; n_prec := None; n_short := 0 |}.
 
 Definition spec_p020_8lf : nspec := {| n_conv := 102; n_long := true; n_plus := true; n_space := false;
-                                      n_zero := true; n_alt := false; n_width := 20; n_prec := Some 8%nat |}.
+                                      n_zero := true; n_alt := false; n_width := 20; n_prec := Some 8%nat; n_short := 0 |}.
 
 Definition ex_items_f : list pitem :=
   [PShow (VFloat 4728057454355442549); PLit [44; 32]; PShow (VStr [97; 34]); PLit [59];
